@@ -41,7 +41,7 @@ def run_case(case, res):
     explore.explore(lambda: fullrun.make(scn), lambda s: scn['script'](), case['bound'], judge, res,
                     dict(case), only=case.get('choices'), closing_ticks=12,
                     shard=case.get('shard'),
-                    max_execs=case.get('max_execs'))
+                    max_execs=case.get('max_execs'), first=case.get('first'))
     res.distinct('scenarios', case['scenario'])
     if case['scenario'] == 'enter-confirm':
         res.sample({'scenario': case['scenario'], 'bound': case['bound']}, cap=1)
@@ -93,7 +93,7 @@ def case_sliced(case, res):
 
 
 BOUND2 = ('forced-unchanged', 'late-subscribe', 'subscribe-then-mempool', 'lonely-read',
-          'enter-confirm', 'untouched-block')
+          'enter-confirm', 'untouched-block', 'overlapping-passes-a', 'overlapping-passes-d')
 
 
 def cases_for(tier):
@@ -106,6 +106,11 @@ def cases_for(tier):
     for name in SLICED:
         for variant in (0, 1):
             cases.append(dict(sliced=True, scenario=name, variant=variant))
+    if tier == 'quick':
+        # a slice of bound 2: every vector whose first deviation lets the mempool see the new
+        # height before the block processor reports it (the flush job's return is kept back)
+        for name in ('overlapping-passes-a', 'overlapping-passes-d'):
+            cases.append(dict(scenario=name, bound=2, first='stall:J:flush_dbs'))
     return cases
 
 
